@@ -1,7 +1,7 @@
 #!/bin/bash
 # tools/confirm_seed.sh Cxx/mN : confirm a sub-agent's seeded change in a scratch worktree of /repo HEAD,
 # then store it under /verif/seeded/Cxx-mN/ (patch.diff, demo.py, meta.json with what was run)
-id="$1"; src=/tmp/mut/out/$id; name=$(echo $id | tr '/' '-')
+id="$1"; src=${SEED_SRC:-/tmp/mut/out}/$id; name=${SEED_NAME:-$(echo $id | tr '/' '-')}
 wt=/tmp/seedwt-$name
 git -C /repo worktree remove --force $wt >/dev/null 2>&1
 git -C /repo worktree add --detach $wt HEAD >/dev/null 2>&1 || { echo "$id: worktree failed"; exit 1; }
